@@ -16,3 +16,9 @@ func VerifBuildDirectClaimRoute(
 ) ([]glightning.RouteHop, error) {
 	return buildDirectClaimRoute(bolt11, scid, maxTotalCLTVDelta)
 }
+
+// VerifNewClient builds a ClightningClient around an already connected
+// lightningd RPC client (so that a fake lightningd socket can stand in).
+func VerifNewClient(l *glightning.Lightning) *ClightningClient {
+	return &ClightningClient{glightning: l}
+}
